@@ -34,4 +34,7 @@ theorem killer_period_eq : Extracted.killerPeriod = killerPeriod := by decide
 /-- both retry loops start every iteration with `await asyncio.sleep(0)`: the variant `progress` / `daemon_progress` are about -/
 theorem loops_yield_each_iteration : Extracted.loopsYieldEachIteration = treeYielding := by decide
 
+/-- `_timer` remembers a final failure in `forever_stopped` at once (the model's label `failForGood`) -/
+theorem timer_failure_is_forever : Extracted.timerFailureIsForever = true := by decide
+
 end Kopf.C09.Tie
